@@ -69,6 +69,7 @@ PROPS["C02"] = dict(
 
 PROPS["C14"] = dict(
     gen=cases.gen_C14,
+    precompare=cases.precompare_C14,
     # command kinds are checked by an explicit assert, not by units: mismatched kinds must panic with checking compiled out too
     configs=[(None, "chk"), ("std,devices", "nochk")],
     mask={"time", "cat", "unit", "float"},
@@ -84,6 +85,7 @@ PROPS["C14"] = dict(
 PROPS["C18"] = dict(
     gen=cases.gen_C18,
     precompare=cases.precompare_conversions,
+    oracle=cases.oracle_C18,
     # conversions must work the same with checking compiled out (`eq_assume_true` / `eq_assume_false` pick the answer there)
     configs=[(None, "chk"), ("std,devices", "nochk")],
     configs_thorough=[(None, "chk"), ("std,devices", "nochk"), ("libm,chk,devices", "chk nostd"), ("release:std,chk,devices", "chk")],
